@@ -262,12 +262,51 @@ func (x *xl) record(n ast.Node, nm *types.Named) string {
 	if _, ok := x.records[name]; !ok {
 		x.records[name] = nm
 		st := nm.Underlying().(*types.Struct)
-		for i := 0; i < st.NumFields(); i++ { // field types first (nested records are emitted before their user)
-			x.coqType(n, st.Field(i).Type())
+		for _, f := range x.recFields(st) { // field types first (nested records are emitted before their user)
+			x.coqType(n, f.Type())
 		}
 		*x.recOrd = append(*x.recOrd, name)
 	}
 	return name
+}
+
+// recFields: the fields of a struct that the generated Record has: those whose type is in the subset (a field of
+// another type - a map with string keys, a channel - is left out; any access to it is rejected)
+func (x *xl) recFields(st *types.Struct) []*types.Var {
+	var fs []*types.Var
+	for i := 0; i < st.NumFields(); i++ {
+		if x.translatable(st.Field(i).Type()) {
+			fs = append(fs, st.Field(i))
+		}
+	}
+	return fs
+}
+
+// structVar: e is v.F for a variable v of a named struct type (not a pointer): v and the field
+func (x *xl) structVar(e ast.Expr) (*types.Var, *types.Var) {
+	se, ok := e.(*ast.SelectorExpr)
+	if !ok {
+		return nil, nil
+	}
+	id, ok := se.X.(*ast.Ident)
+	if !ok {
+		return nil, nil
+	}
+	v, ok := x.info.ObjectOf(id).(*types.Var)
+	if !ok || types.Object(v) == x.recv {
+		return nil, nil
+	}
+	nm, ok := v.Type().(*types.Named)
+	if !ok {
+		return nil, nil
+	}
+	if _, ok := nm.Underlying().(*types.Struct); !ok {
+		return nil, nil
+	}
+	if sel, ok := x.info.Selections[se]; ok && sel.Kind() == types.FieldVal && len(sel.Index()) == 1 {
+		return v, sel.Obj().(*types.Var)
+	}
+	return nil, nil
 }
 
 // translatable: does the subset have values of type t?
@@ -304,8 +343,8 @@ func (x *xl) zero(n ast.Node, t types.Type) string {
 		if st, ok := nm.Underlying().(*types.Struct); ok {
 			r := x.record(n, nm)
 			var fs []string
-			for i := 0; i < st.NumFields(); i++ {
-				fs = append(fs, x.zero(n, st.Field(i).Type()))
+			for _, f := range x.recFields(st) {
+				fs = append(fs, x.zero(n, f.Type()))
 			}
 			return "(Build_" + r + " " + strings.Join(fs, " ") + ")"
 		}
@@ -357,6 +396,9 @@ func (x *xl) atomicField(c *ast.CallExpr) *types.Var {
 func (x *xl) lvalue(e ast.Expr) *types.Var {
 	if f := x.field(e); f != nil {
 		return f
+	}
+	if v, _ := x.structVar(e); v != nil { // v.F = e sets the struct variable v
+		return v
 	}
 	if se, ok := e.(*ast.StarExpr); ok { // *p = v for a pointer parameter
 		if id, isId := se.X.(*ast.Ident); isId && x.ptrParam[x.info.ObjectOf(id)] {
@@ -607,6 +649,9 @@ func (x *xl) expr(e ast.Expr, g *xGuards) string {
 		if sel, ok := x.info.Selections[e]; ok && sel.Kind() == types.FieldVal && len(sel.Index()) == 1 {
 			if nm, ok := sel.Recv().(*types.Named); ok {
 				if _, ok := nm.Underlying().(*types.Struct); ok {
+					if !x.translatable(sel.Obj().Type()) {
+						x.fail(e, "field %s has a type outside the subset", x.src(e))
+					}
 					return "(" + x.record(e, nm) + "_" + e.Sel.Name + " " + x.expr(e.X, g) + ")"
 				}
 			}
@@ -896,13 +941,19 @@ func (x *xl) composite(e *ast.CompositeLit, g *xGuards) string {
 		}
 	}
 	var fs []string
-	for i := 0; i < st.NumFields(); i++ {
-		f := st.Field(i)
+	have := map[string]bool{}
+	for _, f := range x.recFields(st) {
+		have[f.Name()] = true
 		v, ok := vals[f.Name()]
 		if !ok {
 			v = x.zero(e, f.Type())
 		}
 		fs = append(fs, "\n      "+r+"_"+f.Name()+" := "+v)
+	}
+	for n := range vals {
+		if !have[n] {
+			x.fail(e, "field %s of %s has a type outside the subset", n, nm)
+		}
 	}
 	return "{|" + strings.Join(fs, ";") + " |}"
 }
@@ -1445,6 +1496,19 @@ func (x *xl) assign(s *ast.AssignStmt, rest func() string, d int) string {
 			return xGuarded(g, "let rd := "+f.Set+" rd "+v+" in"+xInd(d)+rest())
 		}
 	}
+	if len(s.Rhs) == 1 && len(s.Lhs) == 2 && s.Tok == token.DEFINE { // v, ok := e.(T) with the test e.(T) declared as an oracle (bool): ok is bound, v is not a value of the subset
+		if ta, isTA := s.Rhs[0].(*ast.TypeAssertExpr); isTA {
+			if _, isO := x.unit.Oracles[x.src(ta)]; !isO {
+				x.fail(s, "type assertion %s (only as a declared oracle)", x.src(ta))
+			}
+			okv := x.lvalue(s.Lhs[1])
+			if okv == nil {
+				x.fail(s, "type assertion without the ok result")
+			}
+			v := x.expr(ta, &g)
+			return xGuarded(g, "let "+x.declare(okv)+" := "+v+" in"+xInd(d)+rest())
+		}
+	}
 	if len(s.Rhs) == 1 && len(s.Lhs) > 1 { // a, b := F(args) for a declared pure function F
 		if c, ok := s.Rhs[0].(*ast.CallExpr); ok {
 			if _, isF := x.unit.Funcs[x.src(c.Fun)]; isF {
@@ -1523,6 +1587,23 @@ func (x *xl) assign(s *ast.AssignStmt, rest func() string, d int) string {
 			be := &ast.BinaryExpr{X: l, OpPos: s.TokPos, Op: op, Y: s.Rhs[i]}
 			x.info.Types[be] = types.TypeAndValue{Type: x.typeOf(l)}
 			v = x.binary(be, &g)
+		}
+		if sv, f := x.structVar(l); sv != nil && lv != nil { // v.F = e: the record with that field replaced
+			nm := sv.Type().(*types.Named)
+			r := x.record(l, nm)
+			vn, ok := x.names[sv]
+			if !ok || !x.translatable(f.Type()) {
+				x.fail(l, "%s is not a field of a variable of the translated code", x.src(l))
+			}
+			var fs []string
+			for _, ff := range x.recFields(nm.Underlying().(*types.Struct)) {
+				if ff == f {
+					fs = append(fs, r+"_"+ff.Name()+" := "+v)
+				} else {
+					fs = append(fs, r+"_"+ff.Name()+" := "+r+"_"+ff.Name()+" "+vn)
+				}
+			}
+			v = "{| " + strings.Join(fs, "; ") + " |}"
 		}
 		if ie, ok := l.(*ast.IndexExpr); ok && lv != nil { // m[k] = v
 			v = "(go_map_set " + x.mapVar(ie) + " " + x.expr(ie.Index, &g) + " " + v + ")"
